@@ -499,7 +499,7 @@ func (cfg *Config) varInd(vr Variable, idx syntax.ArithmExpr) (string, bool, err
 			}
 			return strings.Join(strs, " "), vr.IsSet(), nil
 		}
-		val, err := Literal(cfg, idx.(*syntax.Word))
+		val, err := assocKey(cfg, idx)
 		if err != nil {
 			return "", false, err
 		}
@@ -507,6 +507,17 @@ func (cfg *Config) varInd(vr Variable, idx syntax.ArithmExpr) (string, bool, err
 		return str, ok, nil
 	}
 	return "", false, nil
+}
+
+// assocKey expands the key of an associative array element.
+// The parser reads keys as arithmetic expressions, so the original text of
+// one which is not a single word, like [1+2], is gone.
+func assocKey(cfg *Config, idx syntax.ArithmExpr) (string, error) {
+	w, ok := idx.(*syntax.Word)
+	if !ok {
+		return "", fmt.Errorf("associative array keys which are not a single word must be quoted")
+	}
+	return Literal(cfg, w)
 }
 
 // assignElem assigns a variable via an expansion like ${a=val} or
@@ -533,7 +544,7 @@ func (cfg *Config) assignElem(name string, vr Variable, idx syntax.ArithmExpr, v
 		key := "0"
 		if idx != nil {
 			var err error
-			if key, err = Literal(cfg, idx.(*syntax.Word)); err != nil {
+			if key, err = assocKey(cfg, idx); err != nil {
 				return err
 			}
 		}
